@@ -295,6 +295,7 @@ func runC05(c *kit.Ctx) {
 
 	// ---- R5 ---------------------------------------------------------------
 	c.StartRule("R5", "every option written into a request struct reaches the wire", 30)
+	scanRequestLevelOptions(c)
 	cellblockFormMatchesProtoForm(c)
 	clientSide := map[string]string{
 		"base.ctx":                 "cancellation only",
@@ -397,6 +398,7 @@ func runC05(c *kit.Ctx) {
 
 	// ---- R6 ---------------------------------------------------------------
 	c.StartRule("R6", "one writer at a time on the connection", 2)
+	sendPathSharesNoMemory(c)
 	c.Table("C05.R6: sendHello's write is exempt (runs inside dialOnce before the connection goroutines exist; re-checked by R7)")
 	{
 		le := kit.NewLockEnv(p)
